@@ -184,15 +184,41 @@ def generate(run_seed, tier):
     rs = substream(run_seed, "sched")
     rf_ = substream(run_seed, "faults")
     fmt = rw.choice(["beast", "beast", "raw", "skysense"])
-    n = rw.randint(1, rw.choice([3, 8, 20, 40]))
-    p_hot = rw.choice([0.0, 0.05, 0.2])
-    frames = gen_forward_frames(rw, fmt, n, p_hot)
+    bulk = rw.random() < 0.12   # backlog regime: long stream, reads up to libzmq's 8192-byte batch
+    if bulk:
+        n = rw.choice([300, 700, 1500])
+        p_hot = rw.choice([0.0, 0.05])
+        frames = gen_forward_frames(rw, fmt, n, p_hot)
+        mix = rw.choice(["any", "commb_heavy", "adsb_heavy"])
+        if mix != "any":
+            # re-target the long frames' DF: long quiet stretches of one kind
+            for f in frames:
+                key = "body" if "body" in f else "txt"
+                if f.get("k", "3") != "3" or len(f[key]) != 28 or int(f[key][:2], 16) >> 7 == 0:
+                    continue
+                if mix == "commb_heavy":
+                    df = rw.choice([20, 21]) if rw.random() < 0.995 else 17
+                else:
+                    df = 17 if rw.random() < 0.97 else 20
+                first = "%02X" % ((df << 3) | (int(f[key][:2], 16) & 7))
+                f[key] = (first if f[key][2:3].upper() == f[key][2:3] else first.lower()) + f[key][2:]
+    else:
+        n = rw.randint(1, rw.choice([3, 8, 20, 40]))
+        p_hot = rw.choice([0.0, 0.05, 0.2])
+        frames = gen_forward_frames(rw, fmt, n, p_hot)
     st = wire.serialise(fmt, frames)
     L = len(st.data)
     # pieces
     style = rc.random()
     cuts = set()
-    if style < 0.25:
+    if bulk:
+        pos = 0
+        size = rc.choice([1000, 4096, 8191, 8192, 8192, 20000])
+        while pos < L:
+            pos += size if rc.random() < 0.8 else rc.choice([1, 7, 100, 4096, 8192])
+            if 0 < pos < L:
+                cuts.add(pos)
+    elif style < 0.25:
         pass
     elif style < 0.5:
         for _ in range(rc.randint(1, 6)):
@@ -237,7 +263,7 @@ def generate(run_seed, tier):
             tape[str(i)] = rs.randrange(1, 4)
     return {"rig": NAME, "prop": PROP, "fmt": fmt, "frames": frames, "deliveries": deliveries, "zmq_ids": zmq_ids,
             "pipe_cap": pipe_cap, "sink_stalls": sink_stalls, "source_stalls": source_stalls, "tape": tape,
-            "cpu_us": rs.choice([0, 1, 50]), "group": "ids" if zmq_ids else "noids"}
+            "cpu_us": rs.choice([0, 1, 50]), "group": ("bulk-" if bulk else "") + ("ids" if zmq_ids else "noids")}
 
 
 # ---------------------------------------------------------------------------
@@ -251,7 +277,7 @@ def execute(sc, keep_log=False):
     if not dl or dl[-1][1] != len(data):
         dl = dl + [[(dl[-1][0] if dl else 0) + 1000, len(data)]]
     npieces = len(dl)
-    cap = 4000 + 30 * npieces + 12 * len(sc["frames"])
+    cap = 4000 + 30 * npieces + 14 * len(sc["frames"])
     k = Kernel(tape=sc.get("tape"), step_cap=cap, t_end_us=None, cpu_us=sc.get("cpu_us", 0), keep_log=keep_log)
     oracle = Oracle(st)
     net = Net(k, sc.get("zmq_ids", True), oracle)
@@ -335,6 +361,12 @@ def execute(sc, keep_log=False):
     stats.c["pieces"] += npieces
     stats.c["batches_forwarded"] += len(oracle.batches)
     stats.c["stop." + str(k.stop_reason)] += 1
+    if len(sc["frames"]) >= 300:
+        stats.c["probe.bulk_stream_runs"] += 1
+        if any(b - a >= 8192 for a, b in zip([0] + [d[1] for d in dl], [d[1] for d in dl])):
+            stats.c["probe.read_of_8192_bytes_or_more"] += 1
+    if any(len(b["commb_msg"]) > 256 for b in oracle.batches):
+        stats.c["probe.batch_with_over_256_commb"] += 1
     nontrivial = bool(k.counters) or k.switches > 0 or npieces > 1
     stats.sig((sc["fmt"], tuple(k.sched[:600])), nontrivial)
     for v in vio:
